@@ -233,9 +233,9 @@ func runC16(c *core.Ctx, o Options) {
 			// lookup arguments: (msg parameter, Itoa(Tags.MsgSeqNum))
 			if len(lookup.Args) == 2 {
 				if p, ok := lookup.Args[0].(*ssa.Parameter); !ok || p != rm.Params[1] {
-					bad = append(bad, "ValueByTag does not search the offending message: "+an.Render(lookup.Args[0]))
+					bad = append(bad, "ValueByTag does not search the offending message: "+lookup.R(lookup.Args[0]))
 				}
-				if r := an.Render(lookup.Args[1]); r != "strconv.Itoa(s.Opts.Tags.MsgSeqNum)" && r != "strconv.Itoa(s.Tags.MsgSeqNum)" {
+				if r := lookup.R(lookup.Args[1]); r != "strconv.Itoa(s.Opts.Tags.MsgSeqNum)" && r != "strconv.Itoa(s.Tags.MsgSeqNum)" {
 					bad = append(bad, "ValueByTag is not asked for the MsgSeqNum tag but for "+r)
 				}
 			}
@@ -252,7 +252,7 @@ func runC16(c *core.Ctx, o Options) {
 			switch {
 			case lookup.Outcome == "fail":
 				seenLookupFail = true
-				if refTag == nil || !strings.HasSuffix(an.Render(refTag.Args[1]), "Tags.MsgSeqNum") {
+				if refTag == nil || !strings.HasSuffix(refTag.R(refTag.Args[1]), "Tags.MsgSeqNum") {
 					bad = append(bad, "missing sequence number: RefTagID is not set to the MsgSeqNum tag on path "+traceStr(t))
 				}
 				if refSeq != nil {
@@ -260,13 +260,13 @@ func runC16(c *core.Ctx, o Options) {
 				}
 			case refSeq != nil:
 				seenOK = true
-				r := an.Render(refSeq.Args[1])
+				r := refSeq.R(refSeq.Args[1])
 				if !strings.HasPrefix(r, "strconv.Atoi(string(fix.ValueByTag(") || !strings.HasSuffix(r, "#0") {
 					bad = append(bad, "RefSeqNum operand is not the integer parsed from the looked-up value: "+r)
 				}
 			default:
 				seenParseFail = true
-				if refTag == nil || !strings.HasSuffix(an.Render(refTag.Args[1]), "Tags.MsgSeqNum") {
+				if refTag == nil || !strings.HasSuffix(refTag.R(refTag.Args[1]), "Tags.MsgSeqNum") {
 					bad = append(bad, "non-numeric sequence number: RefTagID is not set to the MsgSeqNum tag on path "+traceStr(t))
 				}
 			}
@@ -352,15 +352,15 @@ func (s *sess) checkMakeReject(rule string) {
 			case "SetFieldRefSeqNum":
 				hasSeq = true
 				if p, ok := e.Args[1].(*ssa.Parameter); !ok || an.Render(p) != "seqNum" {
-					bad = append(bad, "RefSeqNum operand is "+an.Render(e.Args[1])+", not the seqNum parameter")
+					bad = append(bad, "RefSeqNum operand is "+e.R(e.Args[1])+", not the seqNum parameter")
 				}
 			case "SetFieldRefTagID":
 				hasTag = true
 				if p, ok := e.Args[1].(*ssa.Parameter); !ok || an.Render(p) != "tag" {
-					bad = append(bad, "RefTagID operand is "+an.Render(e.Args[1])+", not the tag parameter")
+					bad = append(bad, "RefTagID operand is "+e.R(e.Args[1])+", not the tag parameter")
 				}
 			case "SetFieldSessionRejectReason":
-				if r := an.Render(e.Args[1]); r != "strconv.Itoa(reasonCode)" {
+				if r := e.R(e.Args[1]); r != "strconv.Itoa(reasonCode)" && r != "strconv.FormatInt(int64(reasonCode), 10)" {
 					bad = append(bad, "SessionRejectReason operand is "+r)
 				}
 			}
@@ -465,7 +465,7 @@ func runC14(c *core.Ctx, o Options) {
 		}
 		call, ok := setID.Args[1].(*ssa.Call)
 		if !ok || !call.Call.IsInvoke() || call.Call.Method.Name() != "TestReqID" || target == nil || an.Unwrap(call.Call.Value) != target {
-			badOp = append(badOp, "operand of SetFieldTestReqID is "+an.Render(setID.Args[1])+", not TestReqID() of the parsed request")
+			badOp = append(badOp, "operand of SetFieldTestReqID is "+setID.R(setID.Args[1])+", not TestReqID() of the parsed request")
 		}
 		root := chainRoot(sent)
 		rc, ok := root.(*ssa.Call)
